@@ -229,11 +229,11 @@ func (r request) id() string {
 
 // outcome of one runtime request as seen by its caller
 type reqResult struct {
-	Err    string   // "" = no error
-	Tokens []string // contribution tokens found in the response, sorted
-	Nil    bool     // response was nil
-	Foreign bool    // the response mentions an id that is not the caller's own
-	Dur    time.Duration
+	Err     string   // "" = no error
+	Tokens  []string // contribution tokens found in the response, sorted
+	Nil     bool     // response was nil
+	Foreign bool     // the response mentions an id that is not the caller's own
+	Dur     time.Duration
 }
 
 func mkPod(id string) *api.PodSandbox {
@@ -375,11 +375,11 @@ type plug struct {
 	trace  []invocation
 	decide func(rq request) action
 
-	closed   chan struct{} // closed when the session's connection is reported closed
+	closed    chan struct{} // closed when the session's connection is reported closed
 	closeOnce sync.Once
 
-	st   stub.Stub
-	raw  *rawSession
+	st  stub.Stub
+	raw *rawSession
 }
 
 func newPlug(e *env, idx, base string, mask api.EventMask) *plug {
